@@ -457,16 +457,24 @@ class _DataCompiler:
         # version in the new cache over the version in the old cache, because
         # the version in the new cache might be newer.
         cache_key = "data_file_" + file_name
+        already_processed = False
         try:
             cached_file = self._new_cache[cache_key]
+            already_processed = True
         except KeyError:
             try:
                 cached_file = self._old_cache[cache_key]
             except KeyError:
                 cached_file = None
         try:
-            file_yaml = self._render(file_path)
-            file_version = version_for_str(file_yaml)
+            # If the file has already been processed during this run, we must
+            # not render it again: If it changed in the meantime, we would
+            # combine data from two different versions of the same file.
+            if already_processed:
+                file_version = cached_file.version  # type: ignore
+            else:
+                file_yaml = self._render(file_path)
+                file_version = version_for_str(file_yaml)
             # If the file has not changed, we can use the cached data. We still
             # have to process the included files because they might have
             # changed.
